@@ -23,6 +23,11 @@ type clientHello struct {
 	hasECHOuterExtensions bool
 	tls13                 bool
 	echExt                *echExt
+
+	// trailing holds the bytes that follow the extensions inside the
+	// message. They are not part of a ClientHello. In an
+	// EncodedClientHelloInner, they are the padding.
+	trailing []byte
 }
 
 // The ECH Extension as specified in Section 5 of
@@ -212,6 +217,7 @@ func parseClientHello(buf []byte) (*clientHello, error) {
 			Data: slices.Clone(data),
 		})
 	}
+	hello.trailing = s
 	if err := hello.parseExtensions(); err != nil {
 		return nil, err
 	}
